@@ -44,7 +44,10 @@ def write_post(size, data, result):
     return True
 
 
-def read_post(size, data, result):
+def read_post(size, data, result, encoding):
+    import codecs
+    if codecs.lookup(encoding).name != "cp1252":      # reads under another code page are not what C13 describes
+        return True
     if _rec is not None:
         _rec.count("contract:BTSString.read.post")
         z = data.find(b"\x00")
@@ -109,6 +112,13 @@ def check_write(rec, w, s, tag):
             rec.violation("C13", "write:no-terminator", f"byte {len(b)} is {out[len(b)]}", case)
         if any(out[len(b):]):
             rec.violation("C13", "write:padding-not-zero", "non-zero byte after the terminator", case)
+        if not s.isascii():      # these bytes are first seen under another code page, then read normally
+            for enc_ in ("latin-1", "utf-8"):
+                try:
+                    BTSString.read(w, out, enc_)
+                except Exception:
+                    pass
+            rec.count("oracle:C13.first-read-in-other-code-page")
         try:
             back = BTSString.read(w, out)
         except Exception as e:
@@ -117,6 +127,21 @@ def check_write(rec, w, s, tag):
         rec.count("oracle:C13.roundtrip")
         if back != s:
             rec.violation("C13", "roundtrip:string-changed", f"read back {back[:50]!r}", case)
+        # the answer of a default read does not depend on earlier reads of the same bytes under another code page
+        for enc_ in ("latin-1", "utf-8", "cp437"):
+            try:
+                BTSString.read(w, out, enc_)
+            except Exception:
+                pass
+            rec.count("oracle:C13.default-read-after-read-in-other-code-page")
+            try:
+                again = BTSString.read(w, out)
+            except Exception as e:
+                rec.violation("C13", "read:raises-on-written-field", f"after a {enc_} read: {type(e).__name__}: {e}", case)
+                return
+            if again != s:
+                rec.violation("C13", "roundtrip:string-changed", f"after a {enc_} read of the same bytes the default read gives {again[:50]!r}", case)
+                return
         # bwrite / bread through a stream, followed by a sentinel: nothing spills
         buf = BytesIO()
         BTSString.bwrite(buf, w, s)
